@@ -30,3 +30,7 @@ claim("C13",
  "Zero-annotation no-panic sweep (nil dereference, index and slice bounds, nil-map write, failing type assertion, close of closed channel, explicit panic, makeslice range, division by zero) of every function reachable from ingestPacket and handleConn, for all byte strings and all states satisfying the lock invariants, plus site obligations that every documented cap (nodes, user state, user message, encrypted length, decompressed size, concurrent push/pulls, hand-off queue depth) dominates the allocation or buffering it protects, and that the push/pull counter is balanced on every path. Three genuine defects found by this sweep were repaired (fix: commits) and are recorded in known_findings.json.",
  BASE + "External decoders (msgpack, LZW, AES-GCM) return a value or an error and do not panic; AEAD.Open returns len-16 bytes on success; bufio.Reader.Peek(n) returns exactly n bytes or an error. Not decided: hangs, goroutine or connection leaks (liveness).",
  "DESIGN.md §5 C13")
+claim("C16",
+ "The packet label codec is proved for every label of 1..255 bytes and every payload: AddLabelHeaderToPacket produces 244, the length byte, the label bytes and the payload; RemoveLabelHeaderFromPacket returns exactly the label and the remaining bytes, passes unlabelled packets through and never panics; the round trip Remove(Add(buf, L)) = (buf, L) is a lemma over the two contracts. Isolation: ingestPacket and handleConn reach decryption / command dispatch / stream reading only when the received label equals the configured one (or, with SkipInboundLabelCheck, only when no header is present). Stream side: RemoveLabelHeaderFromStream returns an error only if the stream does (or the header is empty) however the bytes are fragmented, and the label it returns is the one in the header.",
+ BASE + "bufio.Reader.Peek(n) blocks until n bytes or an error and every Peek is a view of the same unread prefix (this is what makes fragmentation irrelevant); string/byte-slice contents are axiomatised elementwise with an extensionality axiom for strings.",
+ "DESIGN.md §5 C16")
